@@ -36,6 +36,8 @@ struct Ledger {
     only_initial_overdrafts: bool,
     last_rcv_ms: u64,
     blocked_since_ms: Option<u64>,
+    /// delivery times of the first client datagrams
+    rcv_times: Vec<u64>,
 }
 
 #[derive(Clone, Debug)]
@@ -120,6 +122,10 @@ fn run_case(case: &Case) -> (Ledger, scenario::Outcome) {
                     let mut g = l1.lock().unwrap();
                     g.received += ev.len as u64;
                     g.last_rcv_ms = ev.t.as_millis() as u64;
+                    if g.rcv_times.len() < 64 {
+                        let t = g.last_rcv_ms;
+                        g.rcv_times.push(t);
+                    }
                     if g.validated_at_ms.is_none() && (ev.kinds.contains('h') || (ev.kinds.contains('i') && ev.token_len > 0)) {
                         g.validated_at_ms = Some(ev.t.as_millis() as u64);
                     }
@@ -178,6 +184,23 @@ fn judge(rep: &mut Report, case: &Case, l: &Ledger, out: &scenario::Outcome) {
     for p in &out.panics {
         let loc = vcore::panics::short_location(&p.location);
         rep.violation(format!("C15.panic:{loc}"), format!("panic: {} at {loc}", p.message), case.to_json());
+    }
+    // resumption: when only a finite prefix of the client's datagrams is lost, credit keeps arriving afterwards and
+    // the server must resume sending: the handshake completes within the (virtual) horizon
+    // (the client retransmits with exponential back-off, so the clause only applies when the first datagram after
+    // the lost prefix arrived at least 8 virtual seconds before the horizon)
+    let resumed_early = l.rcv_times.get(1).is_some_and(|t| t + 8000 <= case.spec.deadline.as_millis() as u64);
+    if case.class == "handshake-acks-lost" && resumed_early {
+        rep.count("resumption_scenarios");
+        if out.shared.handshake_ms.is_none() {
+            rep.violation(
+                "C15.resume:handshake-stalled".to_string(),
+                format!("the client's datagrams were delivered again after a finite loss, yet the handshake did not complete within {} virtual ms (server sent {} bytes for {} received before validation) [{}]", case.spec.deadline.as_millis(), l.sent, l.received, case.label),
+                case.to_json(),
+            );
+        } else {
+            rep.count("resumption_handshakes_completed");
+        }
     }
     if let Some(fv) = &l.first_violation {
         // An Initial-bearing datagram is padded to the full datagram size after the credit was applied, so the last
